@@ -279,9 +279,11 @@ func (idx *HNSWIndex) Add(vector VectorNode) error {
 		return nil
 	}
 
+	// Register before linking so pruneConnections can see the new node
+	idx.nodes[id] = node
+
 	// Insert into graph
 	idx.insertNode(node)
-	idx.nodes[id] = node
 
 	idx.mu.Unlock()
 	return nil
